@@ -1,6 +1,7 @@
 """Oracles shared by the checks: envelope invariant, refinement against the reference plan."""
 import json
 import math
+import re
 
 from simv.model.exec import OPAQUE, ROOT, _strip
 
@@ -78,7 +79,8 @@ def check_envelope(resp, text, custom_coercer=False):
                 text = text.decode("utf-8")
             except UnicodeDecodeError:
                 text = text.decode("utf-8", "replace")
-        lines = text.split("\n") if isinstance(text, str) else None
+        # GraphQL line terminators: \n, \r\n and a lone \r
+        lines = re.split(r"\r\n|\r|\n", text) if isinstance(text, str) else None
         for e in errs:
             if not isinstance(e, dict):
                 out.append(V("envelope", "error entry %r is not a dict" % (e,), part="entry"))
